@@ -21,6 +21,7 @@ import Driver.NodeCache
 import Driver.NodeSync
 import Driver.ConsensusStore
 import Driver.Downloader
+import Driver.VdbCache
 /-
 One line per handler object. The first handler that understands a line answers it.
 -/
@@ -58,7 +59,8 @@ def registry : List Obj := [
   mkObj ([] : NcAll) ncStep,
   pureObj pureConsStore,
   mkObj ({} : CsDbSt) csDbStep,
-  mkObj ([] : DlBuf) dlStep
+  mkObj ([] : DlBuf) dlStep,
+  vcObj
 ]
 
 end ZV.Driver
